@@ -198,6 +198,7 @@ func Generate(p *Profile, seed uint64) *Scenario {
 	partials := nodesOf(func(n NodeCfg) bool { return n.Kind == "mappartial" })
 	forests := nodesOf(func(n NodeCfg) bool { return n.Kind != "stump" && n.Kind != "light" && n.Relay == "" })
 	anyNodes := nodesOf(func(n NodeCfg) bool { return true })
+	lights := nodesOf(func(n NodeCfg) bool { return n.Kind == "light" })
 	crashed := map[int]bool{}
 
 	blocksMade := 0
@@ -258,6 +259,9 @@ func Generate(p *Profile, seed uint64) *Scenario {
 			} else {
 				sc.Steps = append(sc.Steps, Step{Op: "ingest", Node: node, Picks: picks, Arg: g.Intn(3)})
 			}
+			continue
+		case p.Name == "c17" && len(lights) > 0 && g.Pct(8):
+			sc.Steps = append(sc.Steps, Step{Op: "reimport", Node: lights[g.Intn(len(lights))], Seed: g.Next()})
 			continue
 		case len(p.QueryModes) > 0 && g.Pct(pQuery) && st.NumLive() > 0:
 			np := 1 + g.Intn(8)
